@@ -73,16 +73,27 @@ def run(repo: Repo, rep: Report, tier: str) -> None:
     init = classify_timeout(init_calls[-1].args[0]) if init_calls else "none"
 
     def transfer(n, st):
+        cls, connected = st
         if n.kind == "stmt":
             for c in calls_at(n):
                 if isinstance(c.func, ast.Attribute) and c.func.attr == "settimeout" and norm(c.func.value) == "self.socket" and c.args:
                     other = {l for _, l in n.succ if l != "exc"}
-                    return [(classify_timeout(c.args[0]), other), (st, {"exc"})]
+                    return [((classify_timeout(c.args[0]), connected), other), (st, {"exc"})]
+                if norm(c.func) == "self.socket.connect":
+                    other = {l for _, l in n.succ if l != "exc"}
+                    return [((cls, True), other), (st, {"exc"})]
         return [(st, {l for _, l in n.succ})]
 
-    ins, pred = typestate(cfg, init, transfer)
+    ins2, pred = typestate(cfg, (init, False), transfer)
+    ins = {k: {s_[0] for s_ in v} for k, v in ins2.items()}
     marks = [n for n in cfg.nodes if n.kind == "stmt" and norm(n.ast) == "self._is_connected = True"]
     rep.need(len(marks) == 1, "transport.connect: `self._is_connected = True` not found")
+    # a TLS handshake on an already connected socket talks to the peer: it needs the connection timeout too
+    for n in cfg.nodes:
+        if n.kind == "stmt" and any(isinstance(c.func, ast.Attribute) and c.func.attr in ("wrap_socket", "do_handshake") for c in calls_at(n)):
+            sts = sorted(ins2.get(n.id, ()))
+            bad = [s_ for s_ in sts if s_[1] and s_[0] != "connection"]
+            rep.check(not bad, "event-waits", "transport.AssociationSocket.connect", n.ast, f"the TLS handshake runs on a connected socket whose timeout class is {[b[0] for b in bad]}: a peer that accepts the TCP connection and never answers the handshake blocks connect() - and AE.associate() behind it - for ever (wrap before connect(), or keep the connection timeout until the handshake is done)", mod=tr, node=n.ast)
     states = sorted(ins.get(marks[0].id, ()))
     rep.check(states == ["network"], "recv-bounded", "transport.AssociationSocket.connect", f"requestor socket timeout when marked open: {states}", "the requestor's connected socket does not carry the network timeout: a peer that stops part-way through a PDU and keeps the connection open leaves the provider thread in recv() for ever, and the association thread spinning in kill()", mod=tr, node=marks[0].ast)
     # acceptor: the accepted socket must be given the network timeout somewhere on the path
@@ -137,6 +148,11 @@ def run(repo: Repo, rep: Report, tier: str) -> None:
     g = [c for c in walk_no_nested(gm) if isinstance(c, ast.Call) and norm(c.func) == "self.msg_queue.get"]
     ok = len(g) == 1 and {k.arg: norm(k.value) for k in g[0].keywords} == {"block": "block", "timeout": "self.dimse_timeout"}
     rep.check(ok, "queue-waits", "dimse.DIMSEServiceProvider.get_msg", g[0] if g else "msg_queue.get(..)", "the wait for a DIMSE message must use the DIMSE timeout", mod=repo.mod("dimse"), node=gm)
+    loops_g = [w for w in walk_no_nested(gm) if isinstance(w, (ast.While, ast.For))]
+    rep.check(not loops_g, "queue-waits", "dimse.DIMSEServiceProvider.get_msg", loops_g[0] if loops_g else "no loop around msg_queue.get", "the wait is retried in a loop: a peer that keeps something trickling in (small never-last fragments) extends the wait beyond the DIMSE timeout without bound", mod=repo.mod("dimse"), node=loops_g[0] if loops_g else gm)
+    hs_g = [h for t_ in walk_no_nested(gm) if isinstance(t_, ast.Try) for h in t_.handlers if h.type is not None and "Empty" in norm(h.type)]
+    okh = len(hs_g) == 1 and len(hs_g[0].body) == 1 and isinstance(hs_g[0].body[0], ast.Return) and norm(hs_g[0].body[0].value) in ("(None, None)", "None, None")
+    rep.check(okh, "queue-waits", "dimse.DIMSEServiceProvider.get_msg", hs_g[0] if hs_g else "except queue.Empty", "when the DIMSE timeout expires get_msg must report (None, None) at once, unconditionally", mod=repo.mod("dimse"), node=hs_g[0] if hs_g else gm)
     dt = repo.cls("dimse", "DIMSEServiceProvider").getters.get("dimse_timeout")
     okd = dt is not None and any(isinstance(r, ast.Return) and norm(r.value) == "self.assoc.dimse_timeout" for r in walk_no_nested(dt))
     rep.check(okd, "queue-waits", "dimse.DIMSEServiceProvider.dimse_timeout", "returns the association's dimse_timeout", "the bound must be the configured one", mod=repo.mod("dimse"), node=dt or gm)
